@@ -106,6 +106,7 @@ class Proc(object):
         self.killed = False
         self.kill_at = None      # kill before op index k (counting all ops)
         self.kill_at_mut = None  # kill before the k-th mutating op
+        self.intr_at_mut = None  # SIGINT (KeyboardInterrupt, once) before the k-th mutating op
         self.fds = {}            # fd -> virtual path
         self.writers = []        # live SimWriter objects
         self.max_ops = spec.get('max_ops', 20000)
@@ -332,6 +333,14 @@ class Kernel(object):
             self.trace.append([self.gseq, p.pid, 'KILL', ev[2], ev[3], None, None])
             self.gseq += 1
             raise SimKilled()
+        if mut and p.intr_at_mut is not None and p.nmut >= p.intr_at_mut:
+            # Ctrl-C: delivered once, between two system calls; the process
+            # unwinds through its own except/finally blocks, whose file-system
+            # calls are executed normally
+            p.intr_at_mut = None
+            self.trace.append([self.gseq, p.pid, 'INTR', ev[2], ev[3], None, None])
+            self.gseq += 1
+            raise KeyboardInterrupt()
         self.gseq += 1
         p.nops += 1
         if mut:
